@@ -93,7 +93,7 @@ def main(argv=None):
     atexit.register(_cleanup)
 
     import mc  # binds pywbem to VERIF_REPO
-    from mc import findings, evidence, VERIF_DIR
+    from mc import findings, evidence, VERIF_DIR, OUT_DIR
     from mc.core import Acc, unjson
     mod = importlib.import_module(CHECKS[prop])
     _MOD, _TIER = mod, args.tier
@@ -163,7 +163,7 @@ def main(argv=None):
     entries, known, new = findings.triage(prop, total.violations)
     lines = []
     known_seen = []
-    replay_dir = os.path.join(VERIF_DIR, 'replays', prop)
+    replay_dir = os.path.join(OUT_DIR, 'replays', prop)
     confirmed_new = []
     for v in new:
         racc = mod.replay(unjson(v['case']), args.tier)
